@@ -33,7 +33,7 @@ func newAPI() *webrtc.API {
 	}, webrtc.RTPCodecTypeAudio)
 	s := webrtc.SettingEngine{}
 	s.SetICEMulticastDNSMode(0) // disabled
-	s.SetSRTPReplayProtectionWindow(4096)
+	s.DisableSRTPReplayProtection(true) // retransmissions repeat a sequence number: the harness wants to see them
 	return webrtc.NewAPI(webrtc.WithMediaEngine(m), webrtc.WithSettingEngine(s), webrtc.WithInterceptorRegistry(&interceptor.Registry{}))
 }
 
